@@ -33,13 +33,23 @@ func runWithWatchdog(eng engine, raw json.RawMessage) (interface{}, error) {
 	select {
 	case r := <-ch:
 		return r.o, r.e
-	case <-time.After(60 * time.Second):
+	case <-time.After(caseTimeout()):
 		var hdr struct {
 			ID int `json:"id"`
 		}
 		_ = json.Unmarshal(raw, &hdr)
 		return map[string]interface{}{"id": hdr.ID, "fatal": "case did not finish within 60s (hang)"}, nil
 	}
+}
+
+func caseTimeout() time.Duration {
+	if v := os.Getenv("VERIF_CASE_TIMEOUT_S"); v != "" {
+		var n int
+		if _, err := fmt.Sscan(v, &n); err == nil && n > 0 {
+			return time.Duration(n) * time.Second
+		}
+	}
+	return 60 * time.Second
 }
 
 func main() {
